@@ -347,6 +347,23 @@ def check(case):
                 again = np.asarray(obj.simulate(theta[free].copy(), times.copy()), dtype=float)
                 case.close(again, want, rtol=1e-6, atol=1e-9, what='outputs after disabling sensitivities')
 
+    if s['sens'] and not s['fixed'] and len(names) >= 2:
+        # a direct request for a subset, named in another order than the model's: the columns follow the model's
+        # parameter order (what ReducedMechanisticModel and the likelihoods rely on)
+        with case.clause('sensitivity_subset'):
+            idx = [i for i in range(len(names)) if i % 2 == 0 or i == len(names) - 1]
+            req = [pub_names[i] for i in reversed(idx)]
+            M.enable_sensitivities(True, parameter_names=np.array(req) if len(idx) % 2 else req)
+            out, sens = M.simulate(theta.copy(), times.copy())
+            sens = np.asarray(sens, dtype=float)
+            case.equal(sens.shape, (len(times), len(outputs), len(idx)), 'sensitivity shape for a subset', kind='shape')
+            ws = _cgrad_outputs(lambda z: sbmlgen.ref_simulate(ms, z, times, outputs, admin), theta)
+            case.close(sens, ws[:, :, idx], rtol=1e-5, atol=1e-8,
+                       what='d output / d parameter for the subset %r (requested as %r), columns in model order' % (
+                           [pub_names[i] for i in idx], req))
+            case.close(out, want, rtol=1e-6, atol=1e-9, what='outputs returned with a sensitivity subset')
+            M.enable_sensitivities(False)
+
     if s.get('refix'):
         rf = s['refix']
         with case.clause('refix'):
